@@ -202,4 +202,18 @@ theorem timeClaimsOK_iff (now : Int) (c : TimeClaims) :
       (c.nbf.secs = 0 ∨ c.nbf.secs ≤ now) := by
   simp [timeClaimsOK, and_assoc]
 
+/-! ### basicAuth across generations -/
+
+theorem genRun_eq_spec_aux : ∀ (ops : List GenOp) (t : UserTable), genRun false ⟨t, t, true⟩ ops = genSpec t ops
+  | [], _ => rfl
+  | .inherit :: r, t => by
+    simp only [genRun, genStep, Bool.false_eq_true, if_false, genSpec]
+    exact genRun_eq_spec_aux r t
+  | .update t' :: r, t => by
+    simp only [genRun, genStep, if_true, genSpec]
+    exact genRun_eq_spec_aux r t'
+  | .req u p :: r, t => by
+    simp only [genRun, genStep, genSpec]
+    rw [genRun_eq_spec_aux r t]
+
 end EgVerif.Validator
